@@ -393,16 +393,118 @@ fn reader_transparency(args: &Args, out: &mut Out, rng: &mut Rng) {
 	}
 }
 
+// ---------- byte budget → capacity (`with_maximum_size`) ----------
+
+fn any_debug_len<K: std::fmt::Debug, V: std::fmt::Debug>(c: &LimitedCache<K, V>) -> u64 {
+	let s = format!("{c:?}");
+	let i = s.find("length: ").unwrap() + 8;
+	s[i..].split(|ch: char| !ch.is_ascii_digit()).next().unwrap().parse().unwrap()
+}
+
+/// Builds a cache with the given byte budget for the pair type (K, V), inserts `n` distinct keys and watches the
+/// number of entries after every insertion. Answer as the model prints it.
+fn budget_run<K, V>(bytes: u64, n: u64, mk: impl Fn(u64) -> (K, V) + std::panic::UnwindSafe) -> (String, Option<String>)
+where
+	K: Clone + std::fmt::Debug + Eq + std::hash::Hash + PartialEq,
+	V: Clone + std::fmt::Debug,
+{
+	let per = (std::mem::size_of::<K>() + std::mem::size_of::<V>()) as u64;
+	let r = catch(move || {
+		let mut cache: LimitedCache<K, V> = LimitedCache::with_maximum_size(bytes as usize);
+		let mut maxlen = any_debug_len(&cache);
+		let mut fail = None;
+		for i in 0..n {
+			let (k, v) = mk(i);
+			cache.add(k, v);
+			let l = any_debug_len(&cache);
+			maxlen = maxlen.max(l);
+			if l * per > bytes && fail.is_none() {
+				fail = Some(format!("after {} insertions the cache holds {l} entries of {per} bytes = {} bytes, budget {bytes}", i + 1, l * per));
+			}
+		}
+		(maxlen, any_debug_len(&cache), fail)
+	});
+	match r {
+		Ok((maxlen, len, fail)) => {
+			let cap = if per == 0 { 0 } else { bytes / per };
+			(format!("cap={cap} maxlen={maxlen} len={len}"), fail)
+		}
+		Err(_) => ("panic".into(), None),
+	}
+}
+
+fn budget_case(out: &mut Out, ty: u8, bytes: u64, n: u64) {
+	let (per, (ans, fail)) = match ty {
+		0 => (2, budget_run::<u8, u8>(bytes, n.min(256), |i| (i as u8, i as u8))),
+		1 => (3, budget_run::<u16, u8>(bytes, n, |i| (i as u16, i as u8))),
+		2 => (6, budget_run::<u32, u16>(bytes, n, |i| (i as u32, i as u16))),
+		3 => (16, budget_run::<u64, u64>(bytes, n, |i| (i, i))),
+		4 => (24, budget_run::<u128, u64>(bytes, n, |i| (i as u128, i))),
+		5 => (32, budget_run::<u64, [u8; 24]>(bytes, n, |i| (i, [i as u8; 24]))),
+		6 => (0, budget_run::<(), ()>(bytes, n.min(1), |_| ((), ()))),
+		// the two instantiations the readers use (versatiles block index cache, PMTiles leaf cache)
+		7 => (
+			(std::mem::size_of::<TileCoord3>() + std::mem::size_of::<std::sync::Arc<Vec<u8>>>()) as u64,
+			budget_run::<TileCoord3, std::sync::Arc<Vec<u8>>>(bytes, n, |i| (TileCoord3::new((i % 1024) as u32, (i / 1024) as u32, 12).unwrap(), std::sync::Arc::new(vec![]))),
+		),
+		_ => (
+			(std::mem::size_of::<versatiles_core::types::ByteRange>() + std::mem::size_of::<std::sync::Arc<Vec<u8>>>()) as u64,
+			budget_run::<versatiles_core::types::ByteRange, std::sync::Arc<Vec<u8>>>(bytes, n, |i| (versatiles_core::types::ByteRange::new(i * 7, 7), std::sync::Arc::new(vec![]))),
+		),
+	};
+	let n_eff = if ty == 0 { n.min(256) } else if ty == 6 { n.min(1) } else { n };
+	let line = format!("C20b {bytes} {per} {n_eff}");
+	let cap = if per == 0 { 0 } else { bytes / per };
+	out.case(&line, &ans, ans != "panic" && n_eff > cap);
+	out.count(&format!("budget_pair_{per}_bytes"));
+	out.count(if ans == "panic" { "budget_panic" } else if n_eff > cap { "budget_overfull" } else { "budget_underfull" });
+	// direct oracle: entries × pair size ≤ budget at every moment; the constructor refuses (panics) only when not even one pair fits
+	if let Some(msg) = fail {
+		out.oracle(false, &format!("C20 budget: {msg}"), json!({"kind": "budget", "pair_bytes": per}), json!({"case": line, "impl": ans}));
+	} else if ans == "panic" && per != 0 && bytes >= per {
+		out.oracle(false, "C20 budget: a cache whose budget holds at least one pair could not be built or used", json!({"kind": "budget_panic", "pair_bytes": per}), json!({"case": line, "impl": ans}));
+	} else {
+		out.oracle(true, "", json!(null), json!(null));
+	}
+}
+
+fn budget_cases(args: &Args, out: &mut Out, rng: &mut Rng) {
+	for ty in 0..9u8 {
+		let per: u64 = [2, 3, 6, 16, 24, 32, 1, 20, 24][ty as usize];
+		// around zero, around one pair, around k pairs ±1 byte
+		let mut budgets = vec![0, 1, per.saturating_sub(1), per, per + 1, 2 * per - 1, 2 * per, 2 * per + 1];
+		for _ in 0..args.n(6, 60) {
+			let k = rng.range(1, 40);
+			budgets.push(k * per + rng.below(per.max(1)));
+			budgets.push(k * per);
+			budgets.push((k * per).saturating_sub(1));
+		}
+		for b in budgets {
+			let cap = b / per.max(1);
+			for n in [0, cap.saturating_sub(1), cap, cap + 1, 2 * cap + 3] {
+				budget_case(out, ty, b, n);
+			}
+		}
+	}
+}
+
 pub fn run(args: &Args) {
 	quiet_panics();
 	let mut out = Out::new(&args.out);
-	out.rule = "histories of add/get/get_or_set(ok|fail) on LimitedCache<u64,u64>; corpus first, then seeded random histories (≤10 keys, cap 1..64, with recency probes), thorough: all histories of length ≤5 over a 9-op alphabet for cap 1..3; plus reader-level transparency: lookup sequences (repeats, neighbours, after failed index loads) on ONE opened VersaTilesReader over valid and index-damaged containers vs the same lookups on freshly opened readers (oracle only); non-trivial = more insert-capable ops than the capacity (passes through an eviction); distinct by case text".into();
+	out.rule = "histories of add/get/get_or_set(ok|fail) on LimitedCache<u64,u64>; byte-budget cases (C20b): with_maximum_size for 9 pair types (2..32 bytes, zero-sized, the two reader instantiations) with budgets at k pairs -1/0/+1 byte and n distinct insertions around the capacity; corpus first, then seeded random histories (≤10 keys, cap 1..64, with recency probes), thorough: all histories of length ≤5 over a 9-op alphabet for cap 1..3; plus reader-level transparency: lookup sequences (repeats, neighbours, after failed index loads) on ONE opened VersaTilesReader over valid and index-damaged containers vs the same lookups on freshly opened readers (oracle only); non-trivial = more insert-capable ops than the capacity (passes through an eviction); distinct by case text".into();
 	let mut seen = HashMap::new();
 	if let Some(p) = &args.replay {
 		for line in std::fs::read_to_string(p).unwrap().lines() {
 			let t: Vec<&str> = line.split(' ').collect();
 			if t.len() == 3 && t[0] == "C20" {
 				emit(&mut out, t[1].parse().unwrap(), &parse_ops(t[2]), &mut seen);
+			}
+			if t.len() == 4 && t[0] == "C20b" {
+				let per: u64 = t[2].parse().unwrap();
+				let tys: Vec<u8> = match per { 2 => vec![0], 3 => vec![1], 6 => vec![2], 16 => vec![3], 24 => vec![4, 8], 32 => vec![5], 0 => vec![6], 20 => vec![7], _ => vec![] };
+				for ty in tys {
+					budget_case(&mut out, ty, t[1].parse().unwrap(), t[3].parse().unwrap());
+				}
 			}
 		}
 		out.finish();
@@ -454,6 +556,7 @@ pub fn run(args: &Args) {
 		}
 		out.notes.push("exhaustive part: all 9^1..9^5 histories over a 9-op alphabet for cap 1,2,3".into());
 	}
+	budget_cases(args, &mut out, &mut rng);
 	reader_transparency(args, &mut out, &mut rng);
 	out.extra.insert("histories_with_eviction_by_cap".into(), json!(seen.iter().map(|(k, v)| (k.to_string(), *v)).collect::<HashMap<_, _>>()));
 	out.finish();
